@@ -30,7 +30,8 @@
 //!          then per direction (0 = client->server, 1 = server->client) 18 integers:
 //!          intended, written, write_done (shutdown ok), write_err, write_err_time, write_pending, write_worst_wait,
 //!          read, correct, first_bad, eof, read_err, read_err_time, read_pending, read_worst_wait, reader_stopped,
-//!          write_started, read_started]
+//!          write_started, read_started],
+//!          ghost_streams, ghost_bytes (streams the server accepted beyond the one opened, and the bytes they yielded)
 //! `*_worst_wait` = max over the blocking operations of that half of (completion - max(start, ref_time)), in us.
 use h_common::{Cur, V};
 use std::{
@@ -247,12 +248,16 @@ struct Out {
     dirs: [DirOut; 2],
     ref_time: i64,
     connect_err: i64,
+    /// streams the server accepted beyond the one the client opened (a duplicated first datagram
+    /// makes the acceptor hand out a second stream; replay protection must keep it empty)
+    ghost_streams: u64,
+    ghost_bytes: u64,
 }
 
 impl Default for Out {
     fn default() -> Self {
         let d = DirOut { correct: true, first_bad: -1, ..Default::default() };
-        Out { dirs: [d, d], ref_time: -1, connect_err: 0 }
+        Out { dirs: [d, d], ref_time: -1, connect_err: 0, ghost_streams: 0, ghost_bytes: 0 }
     }
 }
 
@@ -591,6 +596,23 @@ fn run_sim(cfg: Cfg, out: Arc<Mutex<Out>>) -> (u64, [u64; 4]) {
                             continue;
                         }
                     }
+                    let expected = if cfg.scenario == 2 { 2 } else { 1 };
+                    if count > expected {
+                        let out = out.clone();
+                        out.lock().unwrap().ghost_streams += 1;
+                        async move {
+                            let mut stream = stream;
+                            let mut buf = vec![0u8; 4096];
+                            loop {
+                                match bach::time::timeout(HANG_LIMIT, stream.read(&mut buf)).await {
+                                    Ok(Ok(n)) if n > 0 => out.lock().unwrap().ghost_bytes += n as u64,
+                                    _ => break,
+                                }
+                            }
+                        }
+                        .spawn();
+                        continue;
+                    }
                     let out = out.clone();
                     async move {
                         let (recv, send) = stream.into_split();
@@ -687,6 +709,8 @@ fn dcsim(input: &[V]) -> Vec<V> {
             d.read_started as V,
         ]);
     }
+    v.push(o.ghost_streams as V);
+    v.push(o.ghost_bytes as V);
     if std::env::var("C20_STATS").is_ok() {
         if let Ok((_, st)) = res {
             eprintln!("net stats pass={} drop={} dup={} delay={}", st[0], st[1], st[2], st[3]);
@@ -718,12 +742,61 @@ fn run_line(f: h_common::Component, line: &str) -> String {
     }
 }
 
+/// one case per child process: a simulation that panics half way (or spins) cannot disturb the
+/// cases after it, and a wall-clock limit turns a run-away simulation into `!timeout`
+fn run_in_child(exe: &std::path::Path, comp: &str, line: &str) -> String {
+    use std::io::{Read, Write};
+    use std::process::{Command, Stdio};
+    let limit = std::env::var("C20_CASE_SECS").ok().and_then(|v| v.parse().ok()).unwrap_or(120u64);
+    let mut child = match Command::new(exe)
+        .arg(comp)
+        .arg("--single")
+        .stdin(Stdio::piped())
+        .stdout(Stdio::piped())
+        .stderr(Stdio::null())
+        .spawn()
+    {
+        Ok(c) => c,
+        Err(e) => return format!("!panic cannot spawn child: {e}"),
+    };
+    if let Some(mut si) = child.stdin.take() {
+        let _ = writeln!(si, "{line}");
+    }
+    let start = std::time::Instant::now();
+    loop {
+        match child.try_wait() {
+            Ok(Some(_)) => break,
+            Ok(None) => {
+                if start.elapsed().as_secs() >= limit {
+                    let _ = child.kill();
+                    let _ = child.wait();
+                    return "!timeout".to_string();
+                }
+                std::thread::sleep(std::time::Duration::from_millis(3));
+            }
+            Err(e) => return format!("!panic wait: {e}"),
+        }
+    }
+    let mut out = String::new();
+    if let Some(mut so) = child.stdout.take() {
+        let _ = so.read_to_string(&mut out);
+    }
+    let out = out.lines().next().unwrap_or("").to_string();
+    if out.is_empty() {
+        "!panic child produced no output".to_string()
+    } else {
+        out
+    }
+}
+
 fn main() {
     // the testing helpers install a global tracing subscriber at DEBUG level when debug assertions
     // are on; it would print to stdout
     std::env::set_var("S2N_LOG", "off");
     if std::env::var("C20_DEBUG").is_ok() {
-        std::panic::set_hook(Box::new(|info| eprintln!("panic: {info}")));
+        std::panic::set_hook(Box::new(|info| {
+            eprintln!("panic: {info}\n{}", std::backtrace::Backtrace::force_capture())
+        }));
     } else {
         std::panic::set_hook(Box::new(|_| {}));
     }
@@ -737,28 +810,36 @@ fn main() {
             std::process::exit(2)
         })
         .1;
+    let single = std::env::args().any(|a| a == "--single");
     let lines: Vec<String> = std::io::stdin().lines().map(|l| l.expect("read")).collect();
+    if single {
+        // a big stack: the simulation nests deeply in debug-assertion builds
+        let line = lines.first().cloned().unwrap_or_default();
+        let h = std::thread::Builder::new()
+            .stack_size(64 << 20)
+            .spawn(move || run_line(f, &line))
+            .unwrap();
+        println!("{}", h.join().unwrap_or_else(|_| "!panic worker died".to_string()));
+        // do not wait for anything the simulation may have left behind
+        std::process::exit(0);
+    }
     let n = lines.len();
     let threads = std::env::var("C20_THREADS").ok().and_then(|v| v.parse().ok()).unwrap_or(8usize).clamp(1, 16).min(n.max(1));
+    let exe = std::env::current_exe().expect("current_exe");
     let lines = Arc::new(lines);
     let next = Arc::new(std::sync::atomic::AtomicUsize::new(0));
     let results: Arc<Mutex<Vec<Option<String>>>> = Arc::new(Mutex::new(vec![None; n]));
     let mut hs = vec![];
     for _ in 0..threads {
-        let (lines, next, results) = (lines.clone(), next.clone(), results.clone());
-        hs.push(
-            std::thread::Builder::new()
-                .stack_size(64 << 20)
-                .spawn(move || loop {
-                    let i = next.fetch_add(1, Ordering::SeqCst);
-                    if i >= lines.len() {
-                        break;
-                    }
-                    let r = run_line(f, &lines[i]);
-                    results.lock().unwrap()[i] = Some(r);
-                })
-                .unwrap(),
-        );
+        let (lines, next, results, exe, name) = (lines.clone(), next.clone(), results.clone(), exe.clone(), name.clone());
+        hs.push(std::thread::spawn(move || loop {
+            let i = next.fetch_add(1, Ordering::SeqCst);
+            if i >= lines.len() {
+                break;
+            }
+            let r = run_in_child(&exe, &name, &lines[i]);
+            results.lock().unwrap()[i] = Some(r);
+        }));
     }
     for h in hs {
         let _ = h.join();
